@@ -6,15 +6,16 @@ import (
 
 // param kinds of a template function
 const (
-	pListRef = "listref" // Zahlen Listen Referenz, contents a
-	pList    = "list"    // Zahlen Liste by value, contents a
-	pListB   = "listb"   // Zahlen Liste by value, contents b
-	pTextRef = "textref" // Text Referenz, contents a
-	pText    = "text"    // Text by value, contents a
-	pTextB   = "textb"   // Text by value, contents b
-	pX       = "x"       // Zahl x
-	pY       = "y"       // Zahl y
-	pZ       = "z"       // Buchstabe z
+	pListRef = "listref"  // Zahlen Listen Referenz, contents a
+	pList    = "list"     // Zahlen Liste by value, contents a
+	pListB   = "listb"    // Zahlen Liste by value, contents b
+	pTextRef = "textref"  // Text Referenz, contents a
+	pText    = "text"     // Text by value, contents a
+	pTextB   = "textb"    // Text by value, contents b
+	pX       = "x"        // Zahl x
+	pY       = "y"        // Zahl y
+	pZ       = "z"        // Buchstabe z
+	pTextL   = "textlist" // Text Liste by value, elements parts
 )
 
 type fn struct {
@@ -318,6 +319,42 @@ var funcs = []fn{
 	{name: "split", fam: "text", params: []string{pTextRef, pZ}, ret: "textlist", body: "Gib a an z gespalten zurück.", observe: "ret", keepsA: true, minA: 1,
 		doc: "Spalte: the pieces between the occurrences of the character (non-empty text)", dom: always,
 		spec: specSplit},
+	{name: "lowerc", fam: "text", params: []string{pZ}, ret: "char", body: "Gib z als kleiner Buchstabe zurück.", observe: "ret", maxA: -1,
+		doc: "Kleingeschrieben: A-Z, Ä, Ö, Ü become lower case, every other character is returned unchanged", dom: always,
+		spec: func(c *smt.Ctx, v in) out { return out{v: specLower(c, v.z)} }},
+	{name: "upperc", fam: "text", params: []string{pZ}, ret: "char", body: "Gib z als großer Buchstabe zurück.", observe: "ret", maxA: -1,
+		doc: "Großgeschrieben: a-z, ä, ö, ü become upper case, every other character is returned unchanged", dom: always,
+		spec: func(c *smt.Ctx, v in) out { return out{v: specUpper(c, v.z)} }},
+	{name: "lower", fam: "text", params: []string{pTextRef}, ret: "text", body: "Gib a klein geschrieben zurück.", observe: "ret", keepsA: true, maxA: 2,
+		doc: "Kleinschreiben_Wert", dom: always,
+		spec: func(c *smt.Ctx, v in) out {
+			var r []*smt.Expr
+			for _, e := range v.a {
+				r = append(r, specLower(c, e))
+			}
+			return out{s: concSeq(c, r)}
+		}},
+	{name: "upper", fam: "text", params: []string{pTextRef}, ret: "nichts", body: "Schreibe a groß.", observe: "a", maxA: 2,
+		doc: "Großschreiben", dom: always,
+		spec: func(c *smt.Ctx, v in) out {
+			var r []*smt.Expr
+			for _, e := range v.a {
+				r = append(r, specUpper(c, e))
+			}
+			return out{s: concSeq(c, r)}
+		}},
+	{name: "join", fam: "text", params: []string{pTextL, pZ}, ret: "text", body: "Gib l mit dem Trennzeichen z zum Text verbunden zurück.", observe: "ret",
+		doc: "Verbinden_Text: the elements with the separator between neighbours", dom: always,
+		spec: func(c *smt.Ctx, v in) out {
+			var r []*smt.Expr
+			for k, p := range v.parts {
+				if k > 0 {
+					r = append(r, v.z)
+				}
+				r = append(r, p...)
+			}
+			return out{s: concSeq(c, r)}
+		}},
 	{name: "splitt", fam: "text", params: []string{pTextRef, pTextB}, ret: "textlist", body: "Gib a an b gespalten zurück.", observe: "ret", keepsA: true, minA: 1, maxB: 2, thorough: true,
 		doc: "Spalte_Text: the pieces between the non-overlapping occurrences (from the left) of a separator of two characters", dom: func(c *smt.Ctx, v in) *smt.Expr { return c.BoolC(len(v.b) == 2) },
 		spec: specSplitText},
@@ -394,6 +431,26 @@ func specSplitText(c *smt.Ctx, v in) out {
 		o.alts = append(o.alts, out{cond: cond, pieces: pieces})
 	}
 	return o
+}
+
+func inRange(c *smt.Ctx, v *smt.Expr, lo, hi uint64) *smt.Expr {
+	return c.And(c.UGE(v, c.BV(32, lo)), c.ULE(v, c.BV(32, hi)))
+}
+
+func isOneOf(c *smt.Ctx, v *smt.Expr, xs ...uint64) *smt.Expr {
+	r := c.False()
+	for _, x := range xs {
+		r = c.Or(r, c.Eq(v, c.BV(32, x)))
+	}
+	return r
+}
+
+func specLower(c *smt.Ctx, v *smt.Expr) *smt.Expr {
+	return c.Ite(c.Or(inRange(c, v, 'A', 'Z'), isOneOf(c, v, 196, 214, 220)), c.Add(v, c.BV(32, 32)), v)
+}
+
+func specUpper(c *smt.Ctx, v *smt.Expr) *smt.Expr {
+	return c.Ite(c.Or(inRange(c, v, 'a', 'z'), isOneOf(c, v, 228, 246, 252)), c.Sub(v, c.BV(32, 32)), v)
 }
 
 func nonEmptyB(c *smt.Ctx, v in) *smt.Expr { return c.BoolC(len(v.b) >= 1 && len(v.a) >= 1) }
